@@ -517,6 +517,36 @@ fn sec_cmp(ctx: &mut Ctx) {
                 }
             })
             .collect();
+        // "prefix family" pairs for byte-like types: one side holds only short
+        // (inline-able) values, the other side long values that extend them, so
+        // that cross-array comparison has to go past a shared 4/12-byte prefix
+        // (an all-inline array against one with data buffers)
+        let (va, vb) = if matches!(dt, DataType::Utf8View | DataType::BinaryView | DataType::Utf8 | DataType::Binary | DataType::LargeUtf8 | DataType::LargeBinary) && rng.chance(1, 3) {
+            let is_str = matches!(dt, DataType::Utf8View | DataType::Utf8 | DataType::LargeUtf8);
+            let short: Vec<Val> = (0..n.max(1))
+                .map(|_| {
+                    let l = rng.usize_in(0, 12);
+                    let s: String = (0..l).map(|_| *rng.pick(&['a', 'b', 'c', 'z'])).collect();
+                    if is_str { Val::Str(s) } else { Val::Bytes(s.into_bytes()) }
+                })
+                .collect();
+            let long: Vec<Val> = (0..m.max(1))
+                .map(|_| {
+                    let base = match rng.pick(&short) {
+                        Val::Str(s) => s.clone(),
+                        Val::Bytes(b) => String::from_utf8_lossy(b).into_owned(),
+                        _ => String::new(),
+                    };
+                    let extra = rng.usize_in(0, 30);
+                    let s: String = base.chars().chain((0..extra).map(|_| *rng.pick(&['a', 'b', 'c', 'z']))).collect();
+                    if is_str { Val::Str(s) } else { Val::Bytes(s.into_bytes()) }
+                })
+                .collect();
+            if rng.bool() { (short, long) } else { (long, short) }
+        } else {
+            (va, vb)
+        };
+        let n = va.len();
         let Some(a) = safe_realise(ctx, &mut rng, &dt, &va) else { continue };
         let Some(b) = safe_realise(ctx, &mut rng, &dt, &vb) else { continue };
         let ksig = kind(&dt);
